@@ -34,11 +34,11 @@ _CALL_RE = re.compile(r'when calling (\w+)\((.*?)\)(?: \(which (returns|raises) 
 
 
 def parse_counterexample(message):
-    """-> (call_args_source, outcome_text) or None."""
+    """-> (call_args_source, outcome_text, function name) or None."""
     m = _CALL_RE.search(message)
     if not m:
         return None
-    return m.group(2), (m.group(3) or '') + ' ' + (m.group(4) or '')
+    return m.group(2), (m.group(3) or '') + ' ' + (m.group(4) or ''), m.group(1)
 
 
 def analyze(module_file, fn_name, timeout, per_path):
@@ -63,19 +63,22 @@ def analyze(module_file, fn_name, timeout, per_path):
     ok, bad = loader.verify_pure()
     if not ok:
         return {'verdict': 'harness_error', 'reason': 'falcon not loaded from pure sources: %s' % bad[:3]}
-    fn = getattr(mod, fn_name)
     stats = collections.Counter()
     opts = AnalysisOptionSet(per_condition_timeout=timeout, report_all=True, stats=stats,
                              max_uninteresting_iterations=sys.maxsize)
     if per_path:
         opts.per_path_timeout = per_path
     t0 = time.time()
-    msgs = run_checkables(analyze_function(fn, opts))
-    dt = time.time() - t0
     out = []
-    for m in msgs:
-        out.append({'state': m.state.name, 'message': m.message, 'line': m.line,
-                    'trace': (m.traceback or '')[-1500:]})
+    for one in fn_name.split(','):
+        fn = getattr(mod, one)
+        msgs = run_checkables(analyze_function(fn, opts))
+        if not msgs:
+            out.append({'state': 'SYNTAX_ERR', 'message': 'no contract found on %s' % one, 'line': 0, 'trace': '', 'fn': one})
+        for m in msgs:
+            out.append({'state': m.state.name, 'message': m.message, 'line': m.line,
+                        'trace': (m.traceback or '')[-1500:], 'fn': one})
+    dt = time.time() - t0
     return {'messages': out, 'stats': {k: v for k, v in stats.items()}, 'queries': qstat['n'],
             'solver_s': round(qstat['t'], 3), 'solver_unknown': qstat['unknown'],
             'elapsed_s': round(dt, 2)}
